@@ -120,7 +120,54 @@ def lemmas(broken=False):
     return out
 
 
+def snoc_lemmas():
+    """the two lemmas natives._snoc_lemmas instantiates at every append to delay's queue (records (notification, due)):
+         all_elements(q)                    ==>  completion_last(q ++ [r])
+         all_elements(q) and is_element(r)  ==>  all_elements(q ++ [r])
+    by structural induction over q with the defining equations of the two predicates (natives.DUEPREDS)."""
+    AE, CL = natives.DUEPREDS["all_elements"], natives.DUEPREDS["completion_last"]
+    is_el = natives.rec_is_elem
+    h, r = z3.Const("h", smt.Val), z3.Const("r", smt.Val)
+    tl = z3.Const("tl", S)
+    T = z3.Concat(z3.Unit(h), tl)
+    R = z3.Unit(r)
+    Tr, tlr, Er = z3.Concat(T, R), z3.Concat(tl, R), z3.Concat(E, R)
+
+    def d(q, hd, rest):
+        return [AE(q) == z3.And(is_el(hd), AE(rest)), CL(q) == z3.If(is_el(hd), CL(rest), z3.Length(rest) == 0)]
+    base_defs = [AE(E), CL(E)] + d(Er, r, E)
+    step_defs = [AE(E), CL(E)] + d(T, h, tl) + d(Tr, h, tlr)
+    out = []
+    l1 = lambda q: z3.Implies(AE(q), CL(z3.Concat(q, R)))  # noqa: E731
+    l2 = lambda q: z3.Implies(z3.And(AE(q), is_el(r)), AE(z3.Concat(q, R)))  # noqa: E731
+    for name, text, st in (("append-after-elements-keeps-the-completion-last", "all_elements(q)  ==>  completion_last(q ++ [r])", l1),
+                           ("append-an-element-to-elements", "all_elements(q) and is_element(r)  ==>  all_elements(q ++ [r])", l2)):
+        out.append((name + "/base", text, base_defs, st(E)))
+        out.append((name + "/step", text, step_defs + [st(tl)], st(T)))
+    return out
+
+
 def run_unit(desc):
+    if desc.get("prop") == "C15":
+        return run_unit_snoc(desc)
+    return run_unit_c17(desc)
+
+
+def run_unit_snoc(desc):
+    t0 = time.time()
+    results = []
+    for (name, text, pc, goal) in snoc_lemmas():
+        t1 = time.time()
+        v, m, bk = smt.prove(pc, goal)
+        results.append(Result(f"specs/c15.py::queue-predicates/lemma/{name}", v, bk, smt.model_to_dict(m), [], text, time.time() - t1, "lemma"))
+        v2, _m2, bk2 = smt.check_sat(pc)
+        results.append(Result(f"specs/c15.py::queue-predicates/lemma/{name}/hypotheses-consistent", "proved" if v2 == "sat" else ("refuted" if v2 == "unsat" else "unknown"),
+                              bk2, {}, [], "the defining equations and the induction hypothesis have a model", 0.0, "vacuity"))
+    return {"unit": "specs/c15.py::queue-predicates (K8 lemmas)", "kind": "K8 spec lemmas by structural induction", "functions": {},
+            "results": [r.as_dict() for r in results], "unsupported": None, "spec_validation": [], "bounded": [], "seconds": time.time() - t0}
+
+
+def run_unit_c17(desc):
     t0 = time.time()
     results = []
     for (name, text, pc, goal) in lemmas():
